@@ -5,6 +5,11 @@
 // Same line protocol as ocaml/C13_driver.ml.
 #include "hx_common.hh"
 #include <malloc.h>
+#include <errno.h>
+#include <stdarg.h>
+#include <sys/mman.h>
+#include <sys/syscall.h>
+#include <unistd.h>
 #include <algorithm>
 #include <cstddef>
 #include <cstdlib>
@@ -21,6 +26,26 @@
 #define private public
 #include "util/probing_hash_table.hh"
 #undef private
+
+// mremap defined in the harness executable: util/mmap.cc's HugeRealloc calls this one.  The k-th call of a run can be
+// refused (EINVAL, what the source anticipates for huge pages) so that the ReplaceAndCopy fallback is exercised.
+static unsigned long g_mremap_calls = 0, g_mremap_fail_at = 0, g_mremap_refused = 0;
+extern "C" void *mremap(void *old_address, size_t old_size, size_t new_size, int flags, ...) {
+  ++g_mremap_calls;
+  if (g_mremap_fail_at && g_mremap_calls == g_mremap_fail_at) {
+    ++g_mremap_refused;
+    errno = EINVAL;
+    return MAP_FAILED;
+  }
+  void *new_address = NULL;
+  if (flags & MREMAP_FIXED) {
+    va_list ap;
+    va_start(ap, flags);
+    new_address = va_arg(ap, void *);
+    va_end(ap);
+  }
+  return (void *)syscall(SYS_mremap, old_address, old_size, new_size, flags, new_address);
+}
 
 namespace {
 
@@ -160,16 +185,22 @@ struct Lcg {
   uint64_t Next() { s = s * 6364136223846793005ULL + 1442695040888963407ULL; return s; }
 };
 
-template <class Entry> void RunSet(uint64_t seed, uint64_t count, uint64_t universe_bits, uint64_t stride_bits) {
+template <class Entry> void RunSet(uint64_t seed, uint64_t count, uint64_t universe_bits, uint64_t stride_bits, uint64_t fail_at, uint64_t invalid) {
   typedef util::AutoProbing<Entry, util::IdentityHash> Table;
-  Table table;
+  g_mremap_calls = 0;
+  g_mremap_refused = 0;
+  g_mremap_fail_at = fail_at;
+  // invalid = 0 is the default empty marker; a non-zero marker (as in probing_hash_table_test) takes the Clear() /
+  // clear_new = true paths, and 0 becomes an ordinary key
+  Table table(5, invalid);
   std::map<uint64_t, uint64_t> ref;
   Lcg g = {seed};
   for (uint64_t n = 0; n < count; ++n) {
     uint64_t r = g.Next();
     // keys collide modulo every table size up to 2^stride_bits: low bits drawn from a tiny range
     uint64_t k = (((r >> 20) & ((1ULL << universe_bits) - 1)) << stride_bits) | ((r >> 8) & 3);
-    if (!k) k = 1;
+    if (k == invalid) k = 1;
+    if (invalid && (r & 0xff00000000ULL) == 0) k = 0;   // with a non-zero marker key 0 is a legitimate key: use it often
     unsigned what = (r >> 4) & 7;
     if (what < 5) {
       Entry e;
@@ -215,7 +246,8 @@ template <class Entry> void RunSet(uint64_t seed, uint64_t count, uint64_t unive
     std::cout << "BAD CheckConsistency " << e.what() << "\n";
     return;
   }
-  std::cout << "OK " << table.backend_.buckets_ << " " << ref.size() << "\n";
+  g_mremap_fail_at = 0;
+  std::cout << "OK " << table.backend_.buckets_ << " " << ref.size() << " mremap_calls=" << g_mremap_calls << " refused=" << g_mremap_refused << "\n";
 }
 
 }  // namespace
@@ -235,11 +267,13 @@ int main() {
       bool full = t[0][3] == 'f';
       if (t[0].substr(1, 2) == "12") RunHistory<Entry12>(t, full);
       else RunHistory<Entry16>(t, full);
-    } else if (t[0] == "T" && t.size() == 6) {
+    } else if (t[0] == "T" && (t.size() == 6 || t.size() == 8)) {
       uint64_t seed = strtoull(t[2].c_str(), NULL, 10), count = strtoull(t[3].c_str(), NULL, 10);
       uint64_t ub = strtoull(t[4].c_str(), NULL, 10), sb = strtoull(t[5].c_str(), NULL, 10);
-      if (t[1] == "12") RunSet<Entry12>(seed, count, ub, sb);
-      else RunSet<Entry16>(seed, count, ub, sb);
+      uint64_t fail_at = t.size() == 8 ? strtoull(t[6].c_str(), NULL, 10) : 0;
+      uint64_t invalid = t.size() == 8 && t[7] == "max" ? ~0ULL : 0;
+      if (t[1] == "12") RunSet<Entry12>(seed, count, ub, sb, fail_at, invalid);
+      else RunSet<Entry16>(seed, count, ub, sb, fail_at, invalid);
     } else {
       std::cout << "?\n";
     }
